@@ -3,7 +3,7 @@
    in hand/HandlerProofs.v, hand/HandlerExtra.v and hand/HandlerMore.v.  encoding/json and reflect are not modelled:
    `decode` and `zero` are universally quantified oracles (what encoding/json produces for a
    type, a strictness and a params value; the zero value of a type). *)
-From Coq Require Import List NArith Bool Sorting.Permutation.
+From Coq Require Import List NArith Bool Arith Sorting.Permutation.
 From JV Require Import Bytes Handler HandlerProofs HandlerExtra PosElem HandlerMore.
 Import ListNotations.
 
@@ -205,9 +205,52 @@ Theorem c15_field_names_rel : forall fs ns, field_names fs = ns <-> names_rel fs
 Proof. exact field_names_rel. Qed.
 Print Assumptions c15_field_names_rel.
 
-(* One wrapped handler used for many requests - in sequence or at the same time, in whatever
-   order they are taken up - answers every request as if it were the only one: the outcome of a
-   call is a function of (function descriptor, options, params) alone. *)
+(* Calls of one handler value do not interfere.  The handler closure made by Wrap allocates a
+   fresh scratch variable (and a fresh decoder stub around it) on EVERY call; the machine
+   `mrun shared fi ps sch` (hand/HandlerMore.v) makes that variable explicit: the calls for the
+   requests ps each take up to three steps (allocate the scratch cell / decode the params into it
+   / read it and call the function) and sch is the order in which the steps of all calls are
+   taken - any interleaving.  With per-call cells (shared = false, the code as it is) every call
+   is, at every moment, exactly where it would be had it run alone for the same number of steps
+   (`local`); whenever it has finished it finished with wrap's answer to ITS OWN params; and it
+   has finished after three steps, whatever the other calls did in between. *)
+Theorem c15_calls_do_not_interfere :
+  forall (decode : ty -> bool -> pvalue -> option value) (zero : ty -> value) fi ps sch,
+    let st := mrun decode zero fi false ps sch in
+    length (m_pcs st) = length ps /\
+    forall i p, nth_error ps i = Some p ->
+      nth_error (m_pcs st) i = Some (fst (local decode zero fi p (count_occ Nat.eq_dec sch i))) /\
+      nth_error (m_cells st) i = Some (snd (local decode zero fi p (count_occ Nat.eq_dec sch i))) /\
+      (forall o, nth_error (m_pcs st) i = Some (PcDone o) -> o = wrap decode zero fi p) /\
+      (3 <= count_occ Nat.eq_dec sch i -> nth_error (m_pcs st) i = Some (PcDone (wrap decode zero fi p))).
+Proof. exact scratch_no_interference. Qed.
+Print Assumptions c15_calls_do_not_interfere.
+
+(* every interleaving that lets all calls finish produces the answers of `serve` (= map wrap) *)
+Theorem c15_calls_complete :
+  forall (decode : ty -> bool -> pvalue -> option value) (zero : ty -> value) fi ps sch,
+    (forall i, i < length ps -> 3 <= count_occ Nat.eq_dec sch i) ->
+    map outcome_of (m_pcs (mrun decode zero fi false ps sch)) = map Some (serve decode zero fi ps).
+Proof. exact scratch_complete. Qed.
+Print Assumptions c15_calls_complete.
+
+(* ... and the statement has content: with ONE scratch variable for all calls (the allocation
+   hoisted out of the closure) there is an interleaving in which a function receives the
+   arguments decoded for another request *)
+Theorem c15_refuted_with_shared_scratch :
+  map outcome_of (m_pcs (mrun first_decode demo_zero (fi_of strict_fn) true scratch_reqs scratch_sched)) =
+    [Some (OCall [Val (bs [50]) []]); Some (OCall [Val (bs [50]) []])] /\
+  map outcome_of (m_pcs (mrun first_decode demo_zero (fi_of strict_fn) true scratch_reqs scratch_sched)) <>
+    map Some (serve first_decode demo_zero (fi_of strict_fn) scratch_reqs).
+Proof. exact scratch_refuted_with_shared_cell. Qed.
+Print Assumptions c15_refuted_with_shared_scratch.
+
+(* The two theorems below are facts about `map`: serve is DEFINED as `map (wrap fi)`, and that the
+   n-th element of `map f l` is f of the n-th element of l, and that map preserves permutations,
+   holds of every function f.  They only record that the model of a handler is a function of
+   (descriptor, options, params) and carry no information about the code; what makes calls
+   independent is c15_calls_do_not_interfere above, and that the implementation shares nothing
+   between calls is what the sequence and the concurrent families of the correspondence check test. *)
 Theorem c15_wrap_stateless :
   forall (decode : ty -> bool -> pvalue -> option value) (zero : ty -> value) fi ps1 p ps2,
     nth_error (serve decode zero fi (ps1 ++ p :: ps2)) (length ps1) = Some (wrap decode zero fi p) /\
